@@ -356,6 +356,41 @@ Definition split_check (f g : func) (F : list N) : bool :=
   Nat.leb 1 (List.length f) && Nat.leb (List.length f) (List.length g) && fresh_ok F f &&
   forallb (fun i => split_block_ok F f g (N.of_nat i)) (seq 0 (List.length f)).
 
+(* ------------------------------------------------------------------ data segment (jump tables) *)
+(* db / da: the block labels stored in the data segment before / after the pass, in order (the passes rename them with
+   `_replace_all_labels`).  For every block that ends in `djmp`: entry i of the table is a listed target before iff it
+   is one after, and then entering da[i] is related to entering db[i] exactly like a control-flow edge of that block. *)
+Definition djmp_of (blk : list inst) : option inst :=
+  match last_inst blk with Some T => if String.eqb (i_op T) "djmp" then Some T else None | None => None end.
+Definition table_ok (Tb Ta : inst) (edge : N -> N -> bool) (db da : list N) : bool :=
+  forall2b (fun tb ta => Bool.eqb (memN tb (labels_of (i_args Tb))) (memN ta (labels_of (i_args Ta))) &&
+                         (negb (memN tb (labels_of (i_args Tb))) || edge ta tb)) db da.
+
+Definition chain_data_check (f g : func) (ch : list (list N)) (db da : list N) : bool :=
+  forallb (fun i => let a := N.of_nat i in
+                    let bn := last (chain_of ch a) a in
+                    is_nil (nth_block g a) ||
+                    match djmp_of (nth_block f bn), last_inst (nth_block g a) with
+                    | Some Tb, Some Ta => table_ok Tb Ta (edge_ok f g a bn) db da
+                    | Some _, None => false
+                    | None, _ => true
+                    end) (seq 0 (List.length f)).
+Definition flip_data_check (f : func) (db da : list N) : bool := list_eqb N.eqb db da.
+Definition tail_data_check (f : func) (al : list N) (db da : list N) : bool := list_eqb N.eqb (map (alias_of al) db) da.
+(* a table entry must not be routed through a forwarding block: the table still holds the old label *)
+Definition split_data_check (F : list N) (f g : func) (db da : list N) : bool :=
+  list_eqb N.eqb db da &&
+  forallb (fun i => let b := N.of_nat i in
+                    match djmp_of (nth_block f b), last_inst (nth_block g b) with
+                    | Some Tb, Some Ta =>
+                      forall2b (fun tb ta => negb (memN tb db) ||
+                                             (N.eqb ta tb && N.ltb tb (N.of_nat (List.length f)) &&
+                                              phis_in_ok (nth_block f tb) (nth_block g tb) b b))
+                               (labels_of (i_args Tb)) (labels_of (i_args Ta))
+                    | Some _, None => false
+                    | None, _ => true
+                    end) (seq 0 (List.length f)).
+
 (* ------------------------------------------------------------------ the validator *)
 Inductive cert := CChain (ch : list (list N)) | CFlip (F : list N) | CTail (al : list N) | CSplit (F : list N).
 Definition cfg_check (before after : func) (c : cert) : bool :=
@@ -364,4 +399,12 @@ Definition cfg_check (before after : func) (c : cert) : bool :=
   | CFlip F => flip_check before after F
   | CTail al => tail_check before after al
   | CSplit F => split_check before after F
+  end.
+
+Definition data_check (before after : func) (db da : list N) (c : cert) : bool :=
+  match c with
+  | CChain ch => chain_data_check before after ch db da
+  | CFlip _ => flip_data_check before db da
+  | CTail al => tail_data_check before al db da
+  | CSplit F => split_data_check F before after db da
   end.
